@@ -14,6 +14,7 @@ pub fn def() -> PropDef {
         nontrivial,
         functional: true,
         rule: "programs of depth <= 10 in which every leaf is a tagged logging host call t(n) and every call shape occurs (global and receiver style, 0-4 arguments, host and built-in functions, nested in operators, list/map literals, index, conditional and map/filter/all/exists macros); the ordered host-call log must equal the model's and that of an independent left-to-right reference interpreter; plus nested int(int(...)) / f(f(...)) chains to depth 40 whose call count must stay linear; non-trivial = at least two logged calls; distinct = distinct source text",
+        post: super::no_post,
         exhaustive_note: "random sample plus the fixed call-shape catalogue",
     }
 }
